@@ -7,7 +7,8 @@ C01-r21 C02-r24 C03-r21 C03-r22 C03-r23 C03-r24 C04-r21 C04-r22 C04-r24 C05-r24 
 C11-r23 C11-r24 C12-r21 C12-r22 C13-r21 C13-r22 C13-r24 C14-r21 C14-r23 C14-r24 C15-r23 C16-r23 C17-r22 C17-r24
 C01-r31 C02-r32 C03-r32 C03-r34 C16-r34 C06-r32 C06-r33 C11-r33 C14-r34 C18-1 C18-2 C18-4 C20-1 C20-2
 C01-r42 C02-r41 C02-r42 C04-r33 C05-r31 C05-r32 C05-r33 C08-r31 C08-r32 C08-r33 C08-r34 C09-r34 C10-r31 C10-r34 C12-r31 C12-r32 C12-r33 C12-r34 C13-r31 C13-r33 C13-r34
-C16-r42 C16-r43 C07-r33 C15-r33 C20-r21 C16-r41""".split()
+C16-r42 C16-r43 C07-r33 C15-r33 C20-r21 C16-r41
+C18-r22 C08-r43 C05-r43 C13-r42 C13-r43 C13-r44 C12-r44""".split()
 LIMITS = {
  "C02-r22": "which vertex list an id refers to is not tracked by C02's index-space typing; the same change is reported by C20's DEL-VERT",
  "C02-r33": "storage aliasing of Append's index buffer is C01's clause (OWN-1 reports this seed); C02 judges the mesh returned, not later histories",
